@@ -54,6 +54,13 @@ ASSUMPTIONS = [
 
 CH = {'A': 0, 'B': 1, 'C': 2}
 OP_TIME_LIMIT = 2.0
+_HANGS = [0]
+
+
+def op_time_limit():
+    """2 s per rewrite (the programs are tiny: a legitimate run takes milliseconds); once several hangs were seen the
+    limit drops so that a code change that makes a rewrite loop forever does not stall the whole check"""
+    return OP_TIME_LIMIT if _HANGS[0] < 3 else 0.3
 
 
 # ---------------------------------------------------------------------------------------------------------------------
@@ -303,10 +310,11 @@ def _run_impl(case):
         obs['n_times'] = int(len(times))
     if case['kind'] == 'twf':
         try:
-            with vlib.time_limit(OP_TIME_LIMIT):
+            with vlib.time_limit(op_time_limit()):
                 wf = to_waveform(prog)
         except vlib.Timeout:
             obs['hang'] = True
+            _HANGS[0] += 1
             return obs
         except (ValueError, AssertionError) as e:
             obs['err'] = ERRS[type(e).__name__]
@@ -319,23 +327,60 @@ def _run_impl(case):
         smp = {c: wf.unsafe_sample(c, times) if len(times) else np.zeros(0) for c in chans}
         obs['twf_same'] = same_arrays(smp, before) and set(wf.defined_channels) == set(chans)
         return obs
-    try:
-        with vlib.time_limit(OP_TIME_LIMIT):
-            apply_op(prog, case['path'], case['op'])
-    except vlib.Timeout:
-        obs['hang'] = True
-        return obs
-    except (RuntimeError, ValueError, AssertionError, ZeroDivisionError, IndexError) as e:
-        if type(e).__name__ not in ERRS:
-            obs['crash'] = '%s: %s' % (type(e).__name__, str(e)[:200])
+    steps = [(st[0], st[1], st[2] if len(st) > 2 else False) for st in case.get('prefix', [])]
+    steps.append((case['path'], case['op'], False))
+    executed = []
+    last = None
+    for k, (path, op, read) in enumerate(steps):
+        try:
+            prog.locate(tuple(path))
+        except IndexError:
+            if k < len(steps) - 1:
+                continue                  # a prefix step whose path does not exist (any more) is skipped
+            if 'prefix' not in case:
+                obs['crash'] = 'harness: invalid path %r' % (path,)
+                return obs
+            path = list(path)             # last step of a sequence: longest existing prefix of the path
+            while path:
+                path.pop()
+                try:
+                    prog.locate(tuple(path))
+                    break
+                except IndexError:
+                    pass
+            if op[0] == 'unroll' and not path:
+                op = ['unroll_children']
+        if read:
+            for n in prog.get_depth_first_iterator():
+                n.duration
+        mid = describe_tree(prog, reg) if (executed or k < len(steps) - 1) else obs['input']
+        last = (path, op)
+        try:
+            with vlib.time_limit(op_time_limit()):
+                apply_op(prog, path, op)
+            if k < len(steps) - 1:
+                executed.append([path, op])
+                continue
+        except vlib.Timeout:
+            obs['hang'] = True
+            _HANGS[0] += 1
             return obs
-        obs['err'] = ERRS[type(e).__name__]
+        except (RuntimeError, ValueError, AssertionError, ZeroDivisionError, IndexError) as e:
+            if type(e).__name__ not in ERRS:
+                obs['crash'] = '%s: %s' % (type(e).__name__, str(e)[:200])
+                return obs
+            obs['err'] = ERRS[type(e).__name__]
+        break
+    obs['prefix'] = executed
+    obs['mid'] = mid
+    obs['last'] = [last[0], last[1]]
+    case_path = last[0]
     with vlib.time_limit(10):
         obs['after'] = describe_tree(prog, reg)
         obs['dur'] = vlib.frac_json(prog.duration)
         if 'err' not in obs:
             try:
-                node = prog.locate(tuple(case['path']))
+                node = prog.locate(tuple(case_path))
                 obs['depth'], obs['bal'] = int(node.depth()), bool(node.is_balanced())
             except IndexError:
                 obs['depth'], obs['bal'] = None, None
@@ -402,13 +447,18 @@ def to_coq(case, obs):
     if case['kind'] == 'twf':
         r = '(Ok %s)' % g_wf(obs['wf']) if 'wf' in obs else '(Err %s)' % obs['err']
         return '(CToWf %s %s)' % (g_tree(obs['input']), r)
-    path = glist(lambda i: '%d%%nat' % i, case['path'])
+    gpath = lambda p: glist(lambda i: '%d%%nat' % i, p)
+    lpath, lop = obs['last']
+    path = gpath(lpath)
     if 'err' in obs:
         o = '(ObsErr %s %s)' % (obs['err'], g_tree(obs['after']))
     else:
         dp = obs['depth'] if obs['depth'] is not None else -1
         o = '(ObsOk %s %s %s %s)' % (g_tree(obs['after']), gQ(F(obs['dur'])), gZ(dp), gbool(bool(obs['bal'])))
-    return '(CRewrite %s %s %s %s)' % (g_tree(obs['input']), path, g_op(case['op']), o)
+    if obs['prefix']:
+        pre = glist(lambda st: '(%s, %s)' % (gpath(st[0]), g_op(st[1])), obs['prefix'])
+        return '(CSeq %s %s %s %s %s %s)' % (g_tree(obs['input']), pre, g_tree(obs['mid']), path, g_op(lop), o)
+    return '(CRewrite %s %s %s %s)' % (g_tree(obs['input']), path, g_op(lop), o)
 
 
 # ---------------------------------------------------------------------------------------------------------------------
@@ -451,6 +501,8 @@ def histogram_keys(case, obs):
     if k == 'rw':
         keys.append('op:' + case['op'][0])
         keys.append('at:' + ('root' if not case['path'] else 'inner'))
+        if obs.get('prefix'):
+            keys.append('sequence_len:%d' % (len(obs['prefix']) + 1))
     if 'build' in case:
         b = case['build']
         keys.append('build:' + ('template' if 'template' in b else b.get('style', 'ctor') +
@@ -486,11 +538,11 @@ def classify(case, obs):
     """Which listed finding (known_findings.d/C06.json) does this failing case belong to?"""
     if case['kind'] != 'rw' or 'input' not in obs:
         return None
-    op = case['op']
+    path, op = obs.get('last', [case['path'], case['op']])
     if obs.get('stale') and op[0] in ('flatten', 'unroll'):
         return 'C06-stale-parent-index'
     try:
-        node = _node_at(obs['input'], case['path'])
+        node = _node_at(obs.get('mid', obs['input']), path)
     except (IndexError, KeyError):
         return None
     if op[0] == 'roll' and op[2] > 0 and _has_unaligned_const(node, op[2], F(op[3])):
@@ -579,6 +631,29 @@ def g_tree_rec(rng, chans, depth, opts):
     return {'r': rep, 'w': None, 'm': meas, 'c': ch}
 
 
+def _json_wf_dur(w):
+    k = w['k']
+    if k == 'const':
+        return F(w['d'])
+    if k == 'table':
+        return F(w['e'][-1][0])
+    if k == 'par':
+        return _json_wf_dur(w['l'][0])
+    if k == 'seq':
+        return sum((_json_wf_dur(x) for x in w['l']), F(0))
+    if k == 'rep':
+        return _json_wf_dur(w['b']) * w['n']
+    if k == 'rev':
+        return _json_wf_dur(w['b'])
+    raise ValueError(k)
+
+
+def _json_dur(t):
+    if not t['c']:
+        return (F(0) if t['w'] is None else _json_wf_dur(t['w'])) * t['r']
+    return sum((_json_dur(c) for c in t['c']), F(0)) * t['r']
+
+
 def unrolled_leaves(t):
     if not t['c']:
         return max(t['r'], 1)
@@ -658,7 +733,7 @@ def _strip_composite(t):
 
 
 def gen_cases(rng, tier, ctx):
-    mult = {'quick': 1, 'thorough': 6}[tier]
+    mult = {'quick': 1, 'thorough': 16}[tier]
     cases = []
 
     def add(kind, build, path=None, op=None):
@@ -719,6 +794,15 @@ def gen_cases(rng, tier, ctx):
     for _ in range(260 * mult):
         b, t = gen_build(rng, tier, meas=rng.random() < 0.2)
         ml, q, sr = rng.choice(TRIPLES)
+        if t is not None and rng.random() < 0.5:
+            # boundary triples: minimum length / quantum taken from the sample count of one run of some node
+            n = _node_at(t, rng.choice(paths_of(t)))
+            srf = F(rng.choice(['1', '1', '2', '1/2']))
+            run = (_json_dur(n) / max(n['r'], 1) if rng.random() < 0.7 else _json_dur(n)) * srf
+            if run.denominator == 1 and run > 0:
+                run = int(run)
+                divs = [k for k in range(1, run + 1) if run % k == 0]
+                ml, q, sr = rng.choice([run, run, run + 1, max(run - 1, 1), 1]), rng.choice(divs + [run + 1]), str(srf)
         if rng.random() < 0.03:
             q = 0
         add('rw', b, some_path(t, lambda n, p: True, 0.85) or [], ['make_compat', ml, q, sr])
@@ -738,8 +822,34 @@ def gen_cases(rng, tier, ctx):
             for c in n['c']:
                 long_consts(c)
         long_consts(t)
+        if rng.random() < 0.06 and t['c']:
+            t['w'] = g_const(rng, chans, 64)      # invalid but constructible: a loop with children AND a waveform
         b = {'tree': t, 'style': rng.choice(['ctor', 'append']), 'read_dur': rng.random() < 0.5}
         add('rw', b, [], ['roll', rng.choice([1, 1, 2, 3, 4]), q, srq])
+    # --- several rewrites in a row on the same objects (caches / indices left by one rewrite meet the next) ----------
+    def rnd_step():
+        k = rng.choice(['flatten', 'flatten', 'cleanup', 'encapsulate', 'unroll_children', 'split', 'roll', 'make_compat',
+                        'unroll', 'merge'])
+        path = rng.choice([[], [], [], [0], [1], [0, 0], [rng.randint(0, 2)]])
+        if k == 'flatten':
+            return [path, ['flatten', rng.choice([0, 1, 2, 3])]]
+        if k == 'cleanup':
+            return [path, ['cleanup', rng.random() < 0.8, rng.random() < 0.8]]
+        if k == 'split':
+            return [path, ['split', rng.choice([None, None, 0, 1, -1])]]
+        if k == 'roll':
+            return [path, ['roll', rng.choice([1, 2]), rng.choice([1, 2, 4]), rng.choice(['1', '2', '1/2'])]]
+        if k == 'make_compat':
+            ml, q, sr = rng.choice(TRIPLES[:10])
+            return [path, ['make_compat', ml, q, sr]]
+        if k == 'unroll':
+            return [path or [0], ['unroll']]
+        return [path, [k]]
+    for _ in range(260 * mult):
+        b, t = gen_build(rng, tier, meas=rng.random() < 0.3)
+        steps = [rnd_step() + [rng.random() < 0.5] for _ in range(rng.randint(1, 3))]
+        lp, lo = rnd_step()
+        cases.append({'kind': 'rw', 'build': b, 'prefix': steps, 'path': lp, 'op': lo})
     # --- to_waveform -------------------------------------------------------------------------------------------------
     for _ in range(200 * mult):
         b, t = gen_build(rng, tier, meas=False)
